@@ -23,6 +23,7 @@ class ClassInfo:
     fields: list[tuple[str, str]] = field(default_factory=list)      # annotated class-level fields (dataclass order)
     decorators: list[str] = field(default_factory=list)
     virtual: list[str] = field(default_factory=list)                   # methods synthesised from a self-dispatching base-class method
+    abstract: bool = False                                             # an intermediate template class (hooks raise NotImplementedError)
 
 
 @dataclass
@@ -61,14 +62,55 @@ class PyRepo:
                     tree = ast.parse(src, filename=path)
                 except SyntaxError as e:
                     raise AnalysisError(f'{path} does not parse: {e}')
-                from .pynormal import fold_temporaries
+                from .pynormal import fold_temporaries, worklist_to_recursion, poploop_to_for, eafp_to_lbyl, outline_accessors, \
+                    while_true_to_test, inline_local_procedures, loop_to_comprehension, search_loop_to_membership, \
+                    checked_unwrap_to_extract
+                self.drained = getattr(self, 'drained', 0) + poploop_to_for(tree) + eafp_to_lbyl(tree)
+                self.inlined_procs = getattr(self, 'inlined_procs', 0) + inline_local_procedures(tree)
+                self.drained += while_true_to_test(tree) + loop_to_comprehension(tree) + checked_unwrap_to_extract(tree)
                 self.folded = getattr(self, 'folded', 0) + fold_temporaries(tree)
+                self.outlined = getattr(self, 'outlined', 0) + outline_accessors(tree)
+                self.drained += search_loop_to_membership(tree)
+                if not hasattr(self, 'early_accepts'):
+                    self.early_accepts = []
+                self.early_accepts += [(rel, c, m, n) for c, m, n in worklist_to_recursion(tree)]
                 self.modules[rel] = self._index(rel, path, tree, src)
         # positional fields of dataclasses (for `case C(a, b)` patterns)
         from . import pyeval
         pyeval.register_match_fields({c.name: [n for n, _t in c.fields] for m in self.modules.values() for c in m.classes.values()
                                       if any(d.startswith('dataclass') for d in c.decorators)})
         self._specialise_self_dispatch()
+        self._pull_down_template_methods()
+
+    def _pull_down_template_methods(self) -> None:
+        """An intermediate class that is never instantiated itself - it is not a dataclass although its base's other subclasses are,
+        and it declares a hook whose body only raises NotImplementedError - and implements operations for its subclasses through that
+        hook (template method) is implementation sharing: for each concrete subclass the inherited operation is entered as that
+        subclass's own (synthesised) method, so that `C.apply_esubst` is the same function whether the project writes it once per
+        constructor or once in a shared base.  The intermediate class is marked `abstract` and is not a constructor of its own."""
+        import copy
+        for mi in self.modules.values():
+            for b in mi.classes.values():
+                if not b.bases or any(d.startswith('dataclass') for d in b.decorators):
+                    continue
+                hooks = [m for m, g in b.methods.items()
+                         if [type(st) for st in g.body if not (isinstance(st, ast.Expr) and isinstance(st.value, ast.Constant))] == [ast.Raise]
+                         and 'NotImplementedError' in ast.unparse(g.body[-1])]
+                subs = [c for c in mi.classes.values() if c is not b and b.name in c.bases]
+                if not hooks or not subs or not all(any(d.startswith('dataclass') for d in c.decorators) for c in subs):
+                    continue
+                # the root of the hierarchy (all of whose methods are such stubs) is not a template class
+                if len(hooks) == len(b.methods):
+                    continue
+                if not all(all(h in c.methods for h in hooks) for c in subs):
+                    continue
+                b.abstract = True
+                for c in subs:
+                    for mname, g in b.methods.items():
+                        if mname in hooks or mname in c.methods or mname.startswith('__'):
+                            continue
+                        c.methods[mname] = ast.fix_missing_locations(copy.deepcopy(g))
+                        c.virtual.append(mname)
 
     def _specialise_self_dispatch(self) -> None:
         """A base-class method written as one dispatch over the class of `self` (`match self: case C(..)` / `if isinstance(self, C)`)
@@ -147,6 +189,9 @@ class PyRepo:
                 return (None if undecided else False), []
             if isinstance(pat, ast.MatchAs) and pat.pattern is None:
                 return True, ([] if pat.name is None else [(pat.name, ast.Name(id=selfname, ctx=ast.Load()))])
+            if isinstance(pat, ast.MatchAs) and pat.pattern is not None:
+                m, b = case_matches(pat.pattern)           # `case C(..) as x`
+                return m, (b + ([(pat.name, ast.Name(id=selfname, ctx=ast.Load()))] if pat.name else [])) if m is True else []
             if isinstance(pat, ast.MatchClass):
                 m = is_inst(pat.cls)
                 if m is not True:
@@ -373,8 +418,8 @@ class PyRepo:
         out = []
         for m in self.modules.values():
             for c in m.classes.values():
-                if c is ci:
-                    continue
+                if c is ci or c.abstract:
+                    continue                     # (a template class is not a member of the hierarchy in its own right)
                 if any((x.module, x.name) == (ci.module, ci.name) for x in self.mro(c)[1:]):
                     out.append(c)
         return out
